@@ -216,8 +216,10 @@ with map_loop (fuel : nat) (d : N) (ts : list token) (acc : list (ast * ast)) : 
                else pbind (expect TComma ts) (fun _ ts => map_loop f d ts ((k, v) :: acc)))))))
   end.
 
-(* Parser::parse_value on a fresh parser; fuel = 2 + number of tokens always suffices for printed values *)
-Definition parse_tokens (ts : list token) : pres ast := parse_value (2 + List.length ts) 0 ts.
+(* Parser::parse_value on a fresh parser. Every fuel step is followed by the consumption of a token
+   within three nested calls (parse_value -> values_any -> values_loop), so 3 * tokens + 3 is enough for
+   every input (validated by correspondence on mutated / truncated streams; proved for printed values) *)
+Definition parse_tokens (ts : list token) : pres ast := parse_value (3 * List.length ts + 3) 0 ts.
 
 (* nesting depth of a printed value as counted by the parser (a one-argument form counts its string) *)
 Fixpoint vdepth (v : mv) : N :=
